@@ -153,6 +153,7 @@ fn selftest_determinism(opts: &Opts, seeds: u64) -> i32 {
         ("C07-sweeps", c07::digest),
         ("C08-histories", c08::digest),
         ("C11-histories", c11::digest),
+        ("C20-histories+shadowed-runs", c20::digest),
     ] {
         let a = f(opts.seed, seeds, opts.workers);
         let b = f(opts.seed, seeds, 3);
@@ -160,13 +161,14 @@ fn selftest_determinism(opts: &Opts, seeds: u64) -> i32 {
         let same = a == b && a == c;
         let distinct: std::collections::HashSet<_> = a.iter().collect();
         println!(
-            "determinism {}: {} seeds x 3 executions (workers {}, 3, {}) -> {} ; {} distinct digests",
+            "determinism {}: {} seeds x 3 executions (workers {}, 3, {}) -> {} ; {} distinct digests ; fold {:016x}",
             name,
             seeds,
             opts.workers,
             opts.workers,
             if same { "identical" } else { "DIVERGED" },
-            distinct.len()
+            distinct.len(),
+            a.iter().fold(0xcbf29ce484222325u64, |h, x| (h ^ x).wrapping_mul(0x100000001b3))
         );
         if !same {
             for (i, ((x, y), z)) in a.iter().zip(b.iter()).zip(c.iter()).enumerate() {
